@@ -679,6 +679,11 @@ def apply_as_grid_ufunc(
     if axis is None:
         raise ValueError("Must provide an axis along which to apply the grid ufunc")
 
+    # an axis name given as a bare string stands for itself, whatever its length
+    if isinstance(axis, str):
+        axis = [(axis,)]
+    axis = [(ax,) if isinstance(ax, str) else ax for ax in axis]
+
     if len(args) != len(axis):
         raise ValueError(
             "Number of entries in `axis` does not match the number of data arguments supplied"
